@@ -29,7 +29,7 @@ TESTED_ONLY = {
  'C12': ['which pairs are close: the binary64 test distance <= eps is compared bit for bit with the code on every run and handed to the model as a list; its monotonicity in eps on doubles is proved (FloatAxioms.leb_spec); symmetry of the distance on doubles is not (oracle c12 with its own metric, subfam). The family for every set of close pairs, monotonicity in the set of pairs, no pair => just the points, all pairs => full simplex are proved'],
  'C13': ['deletion of the whole star across indices, complexes() as a whole, addSimplexWithBasis and copy() on a filtration (shadow-log oracle c13); monotone views, births, views closed under faces, closed snapshots and the indices() / simplicesAddedAtIndex bookkeeping are proved for every history'],
  'C14': ['Betti numbers of the index-aware queries against the snapshot (oracle c14 per query; membership / order / faces of visible simplices, the listings per order and as a whole, the total count, the per-order counts and the Euler characteristic are proved for every filtration history); setMinimumIndex / setMaximumIndex'],
- 'C15': ["attribute contents of addSimplicesFrom under a renaming (oracle c15-pre/post); names-only, structure carried, Betti invariance, the renaming being the user's (m.get(s, s) for a dict), the returned mapping listing exactly the changed names, the attribute dictionaries following the names, the structure of a bulk add under a renaming, relabelDisjointFrom (no shared name left, only collisions renamed), and the at-most-once call are proved"],
+ 'C15': ["nothing beyond the tie to the code (oracle c15-pre/post); names-only, structure carried, Betti invariance, the renaming being the user's (m.get(s, s) for a dict), the returned mapping listing exactly the changed names, the attribute dictionaries following the names, the structure and the attribute values of a bulk add under a renaming, relabelDisjointFrom (no shared name left, only collisions renamed), and the at-most-once call are proved"],
  'C16': ['target complexes (oracle c16); result = union, accepted => compatible and compatible => accepted (for complexes that meet the vertex-set reading), and the attribute values of the result (merge = update with the second operand, new cells only) are proved'],
  'C17': ['the JSON text layer (json.dumps / loads, files), name types, nested / unicode attribute values, wrapping in other JSON, filtrations (oracle c17); the structural round trip and acceptance of every encoding by the decoder are proved at the level of the encoded records'],
  'C18': ['Betti numbers beyond k = 6; the lattice beyond 6 x 6; requested name / attributes of the top simplex on non-empty targets (oracle c18); k_simplex / k_void in vertex sets with the frame clause and their binomial counts are proved for every k and every target that meets the vertex-set reading, k_skeleton / ring (what they add, and the frame) for every k / n and every target'],
